@@ -37,7 +37,7 @@ func (c07) Cases(tier string, race bool) int {
 	return 150000
 }
 
-var c07keys = []string{"a", "b", "c", "d", "k"}
+var c07keys = []string{"a", "b", "c", "d", "k", "Kk", "a-B"}
 
 func c07scalar(r *rand.Rand) interface{} {
 	switch r.Intn(6) {
@@ -70,6 +70,9 @@ func (c07) Case(c *core.Ctx) {
 	want := refEval(root, segs)
 	wild := hasWildcard(segs)
 
+	if ambientDecoderOptions(c, 6) {
+		defer ResetDefaults()
+	}
 	c.Eval()
 	got, err := mxj.Map(root).ValuesForPath(path)
 	if len(want) > 32 {
